@@ -59,8 +59,9 @@ def py_history(max_dt, t0, history, has_control=True):
     from formak import runtime
     mf = runtime.ManagedFilter(RecEkf(max_dt, 1 if has_control else 0), t0, (), None)
     outs = []
+    delivered = {}      # a reading delivered again is the SAME object (a driver that retries, or overlapping batches)
     for t in history:
-        rs = [runtime.StampedReading(ts, i) for ts, i in t["readings"]]
+        rs = [delivered.setdefault((ts, i), runtime.StampedReading(ts, i)) for ts, i in t["readings"]]
         kw = {}
         if t.get("control", True):
             kw["control"] = t.get("control_id", "u")
